@@ -436,11 +436,18 @@ func frameCarried(w *World, c *Client, rid string, t int) bool {
 			continue
 		}
 		var f struct {
+			ID     *uint64                    `json:"id"`
 			Result map[string]json.RawMessage `json:"result"`
 			Data   map[string]json.RawMessage `json:"data"`
 		}
 		if json.Unmarshal(e.Payload, &f) != nil {
 			continue
+		}
+		if f.ID != nil {
+			// the response to a get request shows resources, it does not hand them over
+			if r := c.Ref.Reqs[*f.ID]; r != nil && r.Action == "get" {
+				continue
+			}
 		}
 		for _, set := range []map[string]json.RawMessage{f.Result, f.Data} {
 			for _, kind := range []string{"models", "collections", "errors"} {
